@@ -19,13 +19,17 @@ def new_bdd(levels=None):
     return QBDD(levels)
 
 
+def autoref_around(raw):
+    """A dd.autoref.BDD (built by its real constructor) that manages the given raw manager."""
+    b = dd.autoref.BDD()
+    b._bdd = raw
+    b.vars = raw.vars
+    return b
+
+
 def new_autoref(levels=None):
     """dd.autoref.BDD whose underlying manager is quiet at shutdown."""
-    b = dd.autoref.BDD.__new__(dd.autoref.BDD)
-    m = QBDD(levels)
-    b._bdd = m
-    b.vars = m.vars
-    return b
+    return autoref_around(QBDD(levels))
 
 
 def shutdown_check(raw):
